@@ -32,14 +32,17 @@ void pl_lemma_I_sk(void) { int k; __CPROVER_assume(lemma_I_sk_REQ(k)); __CPROVER
 void pl_lemma_I_period(void)
 {
   int e, j, m, d; __CPROVER_assume(lemma_I_period_REQ(e, j, m, d));
-  REVEAL_ORDI(e + 400 * j, m, d); REVEAL_ORDI(e, m, d);
-  /* one case per number of cycles: with j a constant the shift is a constant */
-  STEP(j != -3 || ORD_I(e - 1200, m, d) == ORD_I(e, m, d) - 3 * 146097, "period: j = -3");
-  STEP(j != -2 || ORD_I(e - 800, m, d) == ORD_I(e, m, d) - 2 * 146097, "period: j = -2");
-  STEP(j != -1 || ORD_I(e - 400, m, d) == ORD_I(e, m, d) - 146097, "period: j = -1");
-  STEP(j != 1 || ORD_I(e + 400, m, d) == ORD_I(e, m, d) + 146097, "period: j = 1");
-  STEP(j != 2 || ORD_I(e + 800, m, d) == ORD_I(e, m, d) + 2 * 146097, "period: j = 2");
-  STEP(j != 3 || ORD_I(e + 1200, m, d) == ORD_I(e, m, d) + 3 * 146097, "period: j = 3");
+  REVEAL_ORDI(e, m, d);
+  /* one case per number of cycles: with j a constant the shift is a constant; the opaque symbol is
+     revealed at each constant shift, and congruence identifies ORDI(e + 400*j) with the matching case */
+  REVEAL_ORDI(e - 1200, m, d); REVEAL_ORDI(e - 800, m, d); REVEAL_ORDI(e - 400, m, d);
+  REVEAL_ORDI(e + 400, m, d); REVEAL_ORDI(e + 800, m, d); REVEAL_ORDI(e + 1200, m, d);
+  STEP(ORD_I(e - 1200, m, d) == ORD_I(e, m, d) - 3 * 146097, "period: j = -3");
+  STEP(ORD_I(e - 800, m, d) == ORD_I(e, m, d) - 2 * 146097, "period: j = -2");
+  STEP(ORD_I(e - 400, m, d) == ORD_I(e, m, d) - 146097, "period: j = -1");
+  STEP(ORD_I(e + 400, m, d) == ORD_I(e, m, d) + 146097, "period: j = 1");
+  STEP(ORD_I(e + 800, m, d) == ORD_I(e, m, d) + 2 * 146097, "period: j = 2");
+  STEP(ORD_I(e + 1200, m, d) == ORD_I(e, m, d) + 3 * 146097, "period: j = 3");
   __CPROVER_assert(lemma_I_period_ENS(e, j, m, d), "lemma_I_period.ENS");
 }
 void pl_lemma_I_leapidx(void)
@@ -99,6 +102,60 @@ void pl_lemma_fmshift(void)
 }
 void pl_lemma_leapidx(void) { Z Y; __CPROVER_assume(lemma_leapidx_REQ(Y)); __CPROVER_assert(lemma_leapidx_ENS(Y), "lemma_leapidx.ENS"); }
 void pl_lemma_cong(void) { Z A, B; int m, d; __CPROVER_assume(lemma_cong_REQ(A, B, m, d)); __CPROVER_assert(lemma_cong_ENS(A, B, m, d), "lemma_cong.ENS"); }
+
+void pl_lemma_cong2(void) { Z A, B; int ma, mb, d; __CPROVER_assume(lemma_cong2_REQ(A, B, ma, mb, d)); __CPROVER_assert(lemma_cong2_ENS(A, B, ma, mb, d), "lemma_cong2.ENS"); }
+
+void pl_lemma_dm_range(void)
+{
+  Z x; __CPROVER_assume(lemma_dm_range_REQ(x));
+  REVEAL_DM24(x); REVEAL_DM60(x);
+  __CPROVER_assert(lemma_dm_range_ENS(x), "lemma_dm_range.ENS");
+}
+void pl_lemma_split1(void)
+{
+  diff_t x;
+  REVEAL_DM24((Z)(x % 24)); REVEAL_DM24((Z)(x)); REVEAL_DM60((Z)(x % 60)); REVEAL_DM60((Z)(x));
+  STEP((Z)(x / 24) + FD((Z)(x % 24), 24) == FD((Z)x, 24), "quotient split by 24");
+  STEP((Z)(x / 60) + FD((Z)(x % 60), 60) == FD((Z)x, 60), "quotient split by 60");
+  STEP(FM((Z)(x % 24), 24) == FM((Z)x, 24), "remainder split by 24");
+  STEP(FM((Z)(x % 60), 60) == FM((Z)x, 60), "remainder split by 60");
+  __CPROVER_assert(lemma_split1_ENS(x), "lemma_split1.ENS");
+}
+void pl_lemma_split2(void)
+{
+  diff_t a, b;
+  REVEAL_DM24((Z)(a % 24 + b % 24)); REVEAL_DM24((Z)(a) + (Z)(b)); REVEAL_DM60((Z)(a % 60 + b % 60)); REVEAL_DM60((Z)(a) + (Z)(b));
+  STEP((Z)(a / 24 + b / 24) + FD((Z)(a % 24 + b % 24), 24) == FD((Z)a + (Z)b, 24), "quotient of a sum split by 24");
+  STEP((Z)(a / 60 + b / 60) + FD((Z)(a % 60 + b % 60), 60) == FD((Z)a + (Z)b, 60), "quotient of a sum split by 60");
+  STEP(FM((Z)(a % 24 + b % 24), 24) == FM((Z)a + (Z)b, 24), "remainder of a sum split by 24");
+  STEP(FM((Z)(a % 60 + b % 60), 60) == FM((Z)a + (Z)b, 60), "remainder of a sum split by 60");
+  __CPROVER_assert(lemma_split2_ENS(a, b), "lemma_split2.ENS");
+}
+void pl_lemma_carry(void)
+{
+  diff_t x;
+  REVEAL_DM24((Z)(x)); REVEAL_DM60((Z)(x));
+  STEP((Z)x / 24 == (Z)(x / 24) && (Z)x / 60 == (Z)(x / 60), "64-bit and 128-bit truncating quotients agree");
+  STEP((Z)x % 24 == (Z)(x % 24) && (Z)x % 60 == (Z)(x % 60), "64-bit and 128-bit truncating remainders agree");
+  STEP(FD((Z)x, 24) == (Z)(x / 24) - (x % 24 < 0 ? 1 : 0) && FD((Z)x, 60) == (Z)(x / 60) - (x % 60 < 0 ? 1 : 0), "floor quotients");
+  STEP(FM((Z)x, 24) == (Z)(x % 24) + (x % 24 < 0 ? 24 : 0) && FM((Z)x, 60) == (Z)(x % 60) + (x % 60 < 0 ? 60 : 0), "floor remainders");
+  __CPROVER_assert(lemma_carry_ENS(x), "lemma_carry.ENS");
+}
+void pl_lemma_dm_small(void)
+{
+  diff_t x;
+  REVEAL_DM24((Z)(x)); REVEAL_DM60((Z)(x));
+  __CPROVER_assert(lemma_dm_small_ENS(x), "lemma_dm_small.ENS");
+}
+void pl_lemma_ordbound(void) { year_t y; int m, d; __CPROVER_assert(lemma_ordbound_ENS(y, m, d), "lemma_ordbound.ENS"); }
+void pl_lemma_valid28(void)
+{
+  year_t y; int m, d;
+  __CPROVER_assume(lemma_valid28_REQ(y, m, d));
+  REVEAL_VALIDD(y, m, d); REVEAL_DAYORD(y, m, d); REVEAL_MONBASE(y, (diff_t)(m));
+  USE(lemma_cong2_REQ(y, NMON_Y1(y, (diff_t)(m)), m, NMON_M1((diff_t)(m)), 1), lemma_cong2_ENS(y, NMON_Y1(y, (diff_t)(m)), m, NMON_M1((diff_t)(m)), 1), "cong2");
+  __CPROVER_assert(lemma_valid28_ENS(y, m, d), "lemma_valid28.ENS");
+}
 
 void pl_lemma_period(void)
 {
@@ -174,6 +231,7 @@ void pl_lemma_nday_lift(void)
   STEP(ORD(ry, m1, d1) == NDAY_T(y, m0, d0, cd0), "ORD(ry) is the target");
   STEP((LEAP((Z)E) ? 1 : 0) == (LEAP_I((int)E) ? 1 : 0), "LEAP of the small year in the cheap form");
   STEP((LEAP((Z)(ry)) ? 1 : 0) == (LEAP_I((int)E) ? 1 : 0), "LEAP(ry) == LEAP(E)");
+  STEP((LEAP((Z)(ry)) ? 1 : 0) == (LEAPI((int)LIFT_E(ey, qc, qd)) ? 1 : 0), "LEAP(ry) in the form of the conclusion");
   __CPROVER_assert(lemma_nday_lift_ENS(y, m0, d0, cd0, qc, qd, rc, rd, ey, oey, m1, d1, ry), "lemma_nday_lift.ENS");
 }
 void pl_lemma_ord_reduce(void)
